@@ -101,8 +101,21 @@ class Workbook(object):
         return None
 
 
+class TempFile(object):
+    def get_name(self, I):
+        return Const("<tempfile>")
+
+    def m_seek(self, I, args, kwargs):
+        return NONE
+
+    def m_read(self, I, args, kwargs):
+        from .strtree import SFmt
+        return StrV(SFmt("s", Opaque(("saved workbook bytes",))))
+
+
 def install(I):
     """make ``from openpyxl import Workbook; Workbook()`` produce the model"""
     def make(args, kwargs, node, env):
         return PyObjV(Workbook())
     I.x_openpyxl_Workbook = make
+    I.x_tempfile_NamedTemporaryFile = lambda args, kwargs, node, env: PyObjV(TempFile())
